@@ -69,6 +69,9 @@ type EmCfg struct {
 	FailAt  int         `json:"fail_at"` // observation whose LogPdf fails, -1 none
 	Stale   float64     `json:"stale"`
 	StaleFlag bool      `json:"stale_flag"`
+	// option matrix (zero value = the default configuration: everything optimised)
+	NoEmis    bool      `json:"no_emissions,omitempty"` // EmOptimizeEmissions{false}: tmp[.].gamma is nil
+	NoWeights bool      `json:"no_weights,omitempty"`   // EmOptimizeWeights{false}: tmp[.].logWeights is nil
 }
 
 type emData struct {
@@ -142,6 +145,7 @@ type EmOut struct {
 	Gamma [][]float64 `json:"gamma"` // [c][l]
 	Lw    []float64   `json:"lw"`    // normalised log weights of mixture1
 	Used  []bool      `json:"used"`  // per thread: accumulators were touched by the step
+	Lw0   []float64   `json:"lw0"`   // tmp[0].logWeights after the step (of a sequential single-job run: the job's contribution)
 }
 
 func runEM(cfg *EmCfg, only int, pc PoolCfg) (out EmOut, panicked string) {
@@ -163,7 +167,8 @@ func runEM(cfg *EmCfg, only int, pc PoolCfg) (out EmOut, panicked string) {
 	defer pool.Stop()
 	var aerr error
 	inPool(pool, pc.Nested, func(p tp.ThreadPool) {
-		aerr = generic.EmAlgorithm(core, nil, core.data.GetN(), m, 0.0, 1, p)
+		aerr = generic.EmAlgorithm(core, nil, core.data.GetN(), m, 0.0, 1, p,
+			generic.EmOptimizeEmissions{Value: !cfg.NoEmis}, generic.EmOptimizeWeights{Value: !cfg.NoWeights})
 	})
 	out.Err = aerr != nil
 	out.Lik = core.lik
@@ -172,9 +177,16 @@ func runEM(cfg *EmCfg, only int, pc PoolCfg) (out EmOut, panicked string) {
 	for i := 0; i < m; i++ {
 		out.Lw[i] = core.m1.LogWeights.ConstAt(i).GetFloat64()
 	}
+	if len(core.snaps) > 0 {
+		out.Lw0 = core.snaps[0].LogWeights
+	}
 	for t := range core.snaps {
 		s := core.snaps[t]
-		out.Used = append(out.Used, len(s.LogWeights) > 0 && s.LogWeights[0] != cfg.Stale)
+		if cfg.NoWeights {
+			out.Used = append(out.Used, t > 0 && s.Init)
+		} else {
+			out.Used = append(out.Used, len(s.LogWeights) > 0 && s.LogWeights[0] != cfg.Stale)
+		}
 	}
 	return
 }
@@ -191,6 +203,9 @@ type BwCfg struct {
 	FailPos  int         `json:"fail_pos"`
 	Stale    float64     `json:"stale"`
 	StaleFlag bool       `json:"stale_flag"`
+	// option matrix (zero value = the default configuration)
+	NoEmis  bool `json:"no_emissions,omitempty"`   // BaumWelchOptimizeEmissions{false}: tmp[.].gamma is nil
+	NoTrans bool `json:"no_transitions,omitempty"` // BaumWelchOptimizeTransitions{false}: tmp[.].tr and xi are nil
 }
 
 func (c *BwCfg) offsets() []int {
@@ -329,7 +344,8 @@ func runBW(cfg *BwCfg, only int, pc PoolCfg) (out BwOut, panicked string) {
 	defer pool.Stop()
 	var aerr error
 	inPool(pool, pc.Nested, func(p tp.ThreadPool) {
-		aerr = generic.BaumWelchAlgorithm(core, nil, core.data.GetNRecords(), nData, core.data.GetNMapped(), m, cfg.nE(), 0.0, 1, p)
+		aerr = generic.BaumWelchAlgorithm(core, nil, core.data.GetNRecords(), nData, core.data.GetNMapped(), m, cfg.nE(), 0.0, 1, p,
+			generic.BaumWelchOptimizeEmissions{Value: !cfg.NoEmis}, generic.BaumWelchOptimizeTransitions{Value: !cfg.NoTrans})
 	})
 	out.Err = aerr != nil
 	out.Lik = core.lik
